@@ -210,6 +210,10 @@ def h_two(who, state, kind):
     h0 = header_of(d0)
     out = []
     for i in (1, 2):
+        if i == 2:
+            # an arbitrary time (up to a day) passes between the two deliveries: the cache does not age
+            gap = eng.sym_int('gap_ms', 0, 86400000)
+            world.ENV.now = world.T(world.ENV.now.ms + gap)
         mid = eng.sym_int(f'mid{i}', 0, 0xFFFFFFFF)
         resp = eng.sym_bool(f'resp{i}')
         flags = core.sym_ite_int(resp, h0[5] | 0x20, h0[5] & 0xDF)
